@@ -388,7 +388,7 @@ func propC16ArbitraryBytes(t *rapid.T) {
 	}
 	raw := sb.String()
 	res := c16Serve(key, chunkBytes(t, raw))
-	hasKeyHeader := regexp.MustCompile(`(?i)x-api-key:[ \t]*secret[ \t]*(\r?\n|$)`).MatchString(raw)
+	hasKeyHeader := regexp.MustCompile(`(?i)x-api-key:[ \t]*secret[ \t]*(\r?\n|\r?$)`).MatchString(raw)
 	vstat.Case("C16/bytes", key+"|"+raw, key != "" && len(raw) > 10, fmt.Sprintf("keyConfigured=%v", key != ""))
 	if res.hung {
 		t.Fatalf("key %q bytes %q: no answer within 20 s", key, raw)
